@@ -463,8 +463,9 @@ func (s *Sim) CurSid(j int) []byte {
 	return s.M[j].gen.VerifDealer().SessionID()
 }
 
-// AdvDeal builds the adversarial deal message "D.<claim>.<sealer>.<rcpt>.<variant>".
-func (s *Sim) AdvDeal(claim, sealer, rcpt int, variant string) *dkg.Deal {
+// AdvPlain builds the PLAINTEXT of the adversarial deal variant (everything but "junk" / "nil"): what AdvDeal seals,
+// and what an adversarial justification carries in the clear.
+func (s *Sim) AdvPlain(sealer, rcpt int, variant string) *vss.Deal {
 	t := s.T
 	num := func(x string) int { return h.Atoi(x) }
 	mk := func(p, l int) ([]*big.Int, []kyber.Point) {
@@ -477,12 +478,6 @@ func (s *Sim) AdvDeal(claim, sealer, rcpt int, variant string) *dkg.Deal {
 	}
 	var deal *vss.Deal
 	switch {
-	case variant == "junk":
-		s.Sealed = append(s.Sealed, SealedInfo{Rcpt: rcpt, Claim: claim})
-		return &dkg.Deal{SessionId: s.Sid, Index: uint32(claim), Deal: &vss.EncryptedDeal{DHKey: s.rng.Bytes(129), Signature: s.rng.Bytes(161), Nonce: make([]byte, 12), Cipher: s.rng.Bytes(200)}}
-	case variant == "nil":
-		s.Sealed = append(s.Sealed, SealedInfo{Rcpt: rcpt, Claim: claim})
-		return &dkg.Deal{SessionId: s.Sid, Index: uint32(claim)}
 	case strings.HasPrefix(variant, "good"), strings.HasPrefix(variant, "bad"), strings.HasPrefix(variant, "nilshare"), strings.HasPrefix(variant, "nilv"), strings.HasPrefix(variant, "sidraw"):
 		p := 1
 		for _, pre := range []string{"good", "bad", "nilshare", "nilv", "sidraw"} {
@@ -536,6 +531,20 @@ func (s *Sim) AdvDeal(claim, sealer, rcpt int, variant string) *dkg.Deal {
 	default:
 		panic("bad deal variant " + variant)
 	}
+	return deal
+}
+
+// AdvDeal builds the adversarial deal message "D.<claim>.<sealer>.<rcpt>.<variant>".
+func (s *Sim) AdvDeal(claim, sealer, rcpt int, variant string) *dkg.Deal {
+	switch {
+	case variant == "junk":
+		s.Sealed = append(s.Sealed, SealedInfo{Rcpt: rcpt, Claim: claim})
+		return &dkg.Deal{SessionId: s.Sid, Index: uint32(claim), Deal: &vss.EncryptedDeal{DHKey: s.rng.Bytes(129), Signature: s.rng.Bytes(161), Nonce: make([]byte, 12), Cipher: s.rng.Bytes(200)}}
+	case variant == "nil":
+		s.Sealed = append(s.Sealed, SealedInfo{Rcpt: rcpt, Claim: claim})
+		return &dkg.Deal{SessionId: s.Sid, Index: uint32(claim)}
+	}
+	deal := s.AdvPlain(sealer, rcpt, variant)
 	var e *vss.EncryptedDeal
 	var err error
 	if deal.SecShare != nil && deal.SecShare.V == nil {
